@@ -37,11 +37,42 @@ fn read_cases(p: &str) -> Vec<CaseIn> {
     v
 }
 
+
+/// a consumer of the code transform: its payload is the transform itself (code section start, every
+/// function range, every (input location, output offset) pair), so the emitted bytes depend on it
+#[derive(Debug, Default)]
+pub struct CtDump(pub Vec<u8>);
+impl walrus::CustomSection for CtDump {
+    fn name(&self) -> &str {
+        "ct-dump"
+    }
+    fn data(&self, _: &walrus::IdsToIndices) -> std::borrow::Cow<'_, [u8]> {
+        std::borrow::Cow::Borrowed(&self.0)
+    }
+    fn apply_code_transform(&mut self, t: &walrus::CodeTransform) {
+        let mut v = vec![];
+        v.extend_from_slice(&(t.code_section_start as u32).to_le_bytes());
+        for (id, r) in &t.function_ranges {
+            v.extend_from_slice(&(id.index() as u32).to_le_bytes());
+            v.extend_from_slice(&(r.start as u32).to_le_bytes());
+            v.extend_from_slice(&(r.end as u32).to_le_bytes());
+        }
+        for (loc, off) in &t.instruction_map {
+            v.extend_from_slice(&loc.data().to_le_bytes());
+            v.extend_from_slice(&(*off as u32).to_le_bytes());
+        }
+        self.0 = v;
+    }
+}
+
 fn walrus_run(c: &CaseIn) -> Result<Vec<u8>, String> {
     let mut cfg = walrus::ModuleConfig::new();
     cfg.preserve_code_transform(c.preserve_ct);
     let r = std::panic::catch_unwind(std::panic::AssertUnwindSafe(|| -> Result<Vec<u8>, String> {
         let mut m = cfg.parse(&c.wasm).map_err(|e| format!("{:#}", e))?;
+        if c.preserve_ct {
+            m.customs.add(CtDump::default());
+        }
         if c.gc {
             walrus::passes::gc::run(&mut m);
         }
